@@ -110,6 +110,25 @@ def run(prog, R):
             R.add('ERR-2', b, 'wrap', ok and len(list(b.calls())) == 0, site(b, b.span['lo']), 'from(e) = Error::Io(e): %s' % ok)
     R.floor('ERR-2', 2)
 
+    # ---------------------------------------------------------------- FILL-0: who may read from the source
+    R.rule('FILL-0', 'the readers obtain bytes from the source only through the one refill function (the loop FILL-1..5 govern); no other code calls read / fill_buf / read_into_buf')
+    SOURCE_READS = ('std::io::BufRead::fill_buf', 'std::io::Read::read', 'std::io::Read::read_exact', 'std::io::Read::read_to_end',
+                    'std::io::Read::read_buf', 'std::io::Read::read_vectored', 'std::io::BufRead::read_until', 'std::io::BufRead::read_line',
+                    'buffer_redux::BufReader::read_into_buf')
+    nread = 0
+    for body in scope_bodies(prog):
+        if not any(body.file.endswith(f) for f in ('fasta.rs', 'fastq.rs', 'lib.rs')):
+            continue
+        for blk, t in body.calls():
+            c = t.callee
+            if c is None:
+                continue
+            if c.path in SOURCE_READS or c.target_path() in SOURCE_READS or (c.name in ('fill_buf', 'read_into_buf') and ('buffer_redux' in c.target_path() or 'std::io' in c.path)):
+                nread += 1
+                ok = body in refills and c.is_('buffer_redux::BufReader::read_into_buf')
+                R.add('FILL-0', body, 'source-read:%s#%d' % (c.name, nread), ok, site(body, t.line),
+                      '%s is called %s' % (c.target_path(), 'inside the refill loop' if ok else 'outside the refill function: a single (possibly short) read is taken for a refill, so a partly filled buffer looks like the end of the input'))
+    R.floor('FILL-0', 1)
     # ---------------------------------------------------------------- FILL
     if len(refills) != 1:
         R.anchor_missing('FILL-1', 'exactly one crate function calling BufReader::read_into_buf (found %d)' % len(refills))
